@@ -111,7 +111,7 @@ def spec_compare(bi, bs):
 
 def internal_nonzero(c):
     v = c.value
-    return any(isinstance(v.get(k), (int, float)) and v.get(k) != 0 for k in ('R', 'G', 'X', 'B')) and 'source' in c.type
+    return any(k in v and gc.is_real(v[k]) and v[k] != 0 for k in ('R', 'G', 'X', 'B')) and 'source' in c.type
 
 def check_case(ctx, out, descs, w, wres, origin, tested=None):
     """descs: valid component descriptions; w, wres: floats"""
